@@ -8,6 +8,7 @@
 #include <unistd.h>
 #include <signal.h>
 #include <sched.h>
+#include <new>
 #include <sys/select.h>
 #include <sys/socket.h>
 #include <sys/syscall.h>
@@ -30,6 +31,7 @@ struct SimThread
    int id; sem_t sem; int st; const void * waitObj; const volatile uint32_t * pending; uint64_t deadline; bool timedOut; const void * threadObj;
    bool inTimed; uint64_t apiDeadline; const char * timedTag; const std::function<bool()> * pred; int nfds; fd_set rs, ws; bool hasR, hasW; int prio; pid_t tid;
    bool cvSignalled, cvSpurious;
+   bool oomOn = false; uint32_t oomCount = 0;   // fault: while the harness has the window open, this thread's nothrow allocations may fail
 };
 static std::vector<SimThread *> g_threads; static std::mutex g_reg; static sem_t g_regSem; static bool g_regSemInit = false;
 static thread_local SimThread * t_self = NULL;
@@ -94,6 +96,15 @@ static bool Enabled(SimThread * t, bool * byTimeout)
    return false;
 }
 void FailSocketpairs(bool on) {g_failSocketpairs = on;}
+void OomWindow(bool on) {if (t_self) t_self->oomOn = on;}
+uint32_t OomsInjected() {return t_self ? t_self->oomCount : 0;}
+static bool SimOom()
+{
+   SimThread * me = t_self;
+   if ((me == NULL)||(!g_active)||(!me->oomOn)||(g_cfg.pOomPermille <= 0)||(g_replayPos < g_cfg.replay.size())) return false;
+   if ((int) g_rng.below(1000) >= g_cfg.pOomPermille) return false;
+   me->oomCount++; g_stats.ooms++; g_hash.u(0x00A110C); return true;
+}
 bool IsAsleep(int tid)
 {
    if ((tid < 0)||((size_t) tid >= g_threads.size())) return false;
@@ -448,3 +459,10 @@ int clock_gettime(clockid_t id, struct timespec * ts)
    return (int) syscall(SYS_clock_gettime, id, ts);
 }
 }
+
+
+// ---------------------------------------------------------------- fault: a memory allocation fails
+// muscle allocates with new (nothrow) and handles NULL; these replacements (the executable's definitions replace the library's) make such an allocation of a simulated thread
+// fail now and then while the harness holds that thread's window open.  Otherwise they defer to the throwing forms, so the sanitizer's bookkeeping stays the usual one.
+void * operator new(std::size_t n, const std::nothrow_t &) noexcept   {if (SimOom()) return NULL; try {return ::operator new(n);}   catch(...) {return NULL;}}
+void * operator new[](std::size_t n, const std::nothrow_t &) noexcept {if (SimOom()) return NULL; try {return ::operator new[](n);} catch(...) {return NULL;}}
